@@ -570,6 +570,19 @@ fn c15_plan(cells: Vec<(Cell, u8, bool)>, r: &mut Rng) -> Plan {
         })
         .collect();
     let row: Vec<Cell> = cells.into_iter().map(|c| c.0).collect();
+    // sometimes an earlier row of the same resultset holds NULLs (and the same numbers in the
+    // other columns): what one row did must not alter the numbers of the next
+    let mut rows = Vec::new();
+    if row.len() >= 2 && r.chance(1, 4) {
+        let pre: Vec<Cell> = row
+            .iter()
+            .enumerate()
+            .map(|(i, c)| if (i + row.len()) % 2 == 0 || i + 1 == row.len() { Cell::Null(1) } else { c.clone() })
+            .collect();
+        // the last cell of the real row may be a may-refuse one: keep the pre-row refusal-free
+        rows.push(pre);
+    }
+    rows.push(row);
     let cmds = vec![
         Cmd {
             seq: 0,
@@ -596,7 +609,7 @@ fn c15_plan(cells: Vec<(Cell, u8, bool)>, r: &mut Rng) -> Plan {
             act: Act::Program(Program {
                 units: vec![Unit::Rows(RowsUnit {
                     cols,
-                    rows: vec![row],
+                    rows,
                     write_row: false,
                     last_row_ended: true,
                     close: Close::Finish,
@@ -767,7 +780,9 @@ impl Check for C15 {
         };
         let Act::Program(p) = &cmd.act else { return };
         let Some(Unit::Rows(ru)) = p.units.first() else { return };
-        let Some(row) = ru.rows.first() else { return };
+        if ru.rows.is_empty() {
+            return;
+        }
         let stat = &out.w.cellstat;
         // a panic outside the probed calls is not a refusal
         if let RunEnd::Panic { loc, msg } = &out.end {
@@ -778,15 +793,17 @@ impl Check for C15 {
             ));
             return;
         }
+        let ncells: usize = ru.rows.iter().map(|r| r.len()).sum();
+        'rows: for (ri, row) in ru.rows.iter().enumerate() {
         for (i, cell) in row.iter().enumerate() {
             let col = &ru.cols[i];
             let unsigned = col.flags & 0x20 != 0;
-            let st = stat.iter().find(|s| s.0 as usize == i).map(|s| &s.1);
+            let st = stat.iter().find(|s| s.0 as usize == ri * 1_000 + i).map(|s| &s.1);
             match st {
-                None => break, // run ended earlier (after a legitimate refusal)
+                None => break 'rows, // run ended earlier (after a legitimate refusal)
                 Some(CellStatus::Ok) => {}
                 Some(other) => {
-                    if must_accept(cell, col.coltype, unsigned) {
+                    if matches!(cell, Cell::Null(_)) || must_accept(cell, col.coltype, unsigned) {
                         vs.push(v(
                             "int-refused",
                             format!("{} into {:#x} {}", cell_kind(cell), col.coltype, if unsigned { "unsigned" } else { "signed" }),
@@ -805,8 +822,9 @@ impl Check for C15 {
                 }
             }
         }
-        // all cells accepted: the row must decode to the same integers
-        let all_ok = stat.len() == row.len() && stat.iter().all(|s| s.1 == CellStatus::Ok);
+        }
+        // all cells accepted: every row must decode to the same integers
+        let all_ok = stat.len() == ncells && stat.iter().all(|s| s.1 == CellStatus::Ok);
         if !all_ok {
             return;
         }
@@ -814,21 +832,24 @@ impl Check for C15 {
             Some(Some(Ok(d))) => {
                 if let DecResp::Units(us) = &d.resp {
                     if let Some(DecUnit::Rows { cols, rows, .. }) = us.first() {
-                        if let Some(DecRow::Bin { cells, .. }) = rows.first() {
-                            for (i, (c, g)) in row.iter().zip(cells).enumerate() {
-                                if let Err(m) = bin_match(c, &cols[i], g) {
-                                    let unsigned = cols[i].flags & 0x20 != 0;
-                                    vs.push(v(
-                                        "int-altered",
-                                        format!(
-                                            "{} into {:#x} {}",
-                                            cell_kind(c),
-                                            cols[i].coltype,
-                                            if unsigned { "unsigned" } else { "signed" }
-                                        ),
-                                        format!("cell #{}: {}", i, m),
-                                    ));
-                                    return;
+                        if rows.len() == ru.rows.len() {
+                            for (ri, (row, drow)) in ru.rows.iter().zip(rows).enumerate() {
+                                let DecRow::Bin { cells, .. } = drow else { continue };
+                                for (i, (c, g)) in row.iter().zip(cells).enumerate() {
+                                    if let Err(m) = bin_match(c, &cols[i], g) {
+                                        let unsigned = cols[i].flags & 0x20 != 0;
+                                        vs.push(v(
+                                            "int-altered",
+                                            format!(
+                                                "{} into {:#x} {}",
+                                                cell_kind(c),
+                                                cols[i].coltype,
+                                                if unsigned { "unsigned" } else { "signed" }
+                                            ),
+                                            format!("row {} cell #{}: {}", ri, i, m),
+                                        ));
+                                        return;
+                                    }
                                 }
                             }
                             return;
